@@ -236,12 +236,13 @@ static void explore_subject(Subject S, int nev, int ncv, int rot, Local& L, cons
     try
     {
         PropOracle<K> po(PLAN.prop, S, ops, L, replay);
-        Explorer<K> ex{S, ops, PLAN.depth, L};
+        Explorer<K> ex{S, ops, PLAN.prop == "C06" ? PLAN.depth - 1 : PLAN.depth, L};
+        ex.tail_pairs = (PLAN.prop == "C06");
         ex.oracle = [&](const std::vector<int>& h, const Obs& b, const Obs& a, Inst<K>& inst) { po(h, b, a, inst); };
         ex.nondet = [&](const std::string& c, const std::string& d) { L.violate(S.key + "|" + c, replay, d); };
         ex.run();
         // ---- complete depth-2 sweep: init(v); compute(rule, maxit, tol) for all v in VEC(A)
-        if (PLAN.sweep && K::sweep)
+        if (PLAN.sweep && K::sweep && PLAN.prop != "C06")  // (for C06 the sweep would compare a fresh object with itself)
         {
             static const long MAXIT_T[6] = {0, 1, 2, 3, 10, 1000};
             static const long MAXIT_Q[4] = {0, 1, 3, 1000};
@@ -320,7 +321,7 @@ static void set_shift(Subject& S, LD sigma)
         mn = std::min(mn, d);
     }
     S.norm_shifted = mx;
-    S.min_dist = mn;
+    S.inv_norm_shifted = 1 / mn;
     S.cond_shifted = mx / mn;
 }
 
